@@ -60,7 +60,17 @@ RecoverBad(ev) ==
   LET E == DigestToE(ev.digest, ev.allow)
       S == Sign(ev.d, ev.k, E.e)
       R == KG(ev.k)
-  IN  IF E.kind # "e" \/ S.kind # "sig" \/ H # 1 \/ R[1] >= N THEN {}     \* outside the precondition
+  IN  IF ~ev.signed \/ H # 1 \/ R[1] >= N \/ E.kind = "BadDigestError" THEN {}     \* outside the precondition
+      ELSE IF E.kind = "unspecified" THEN
+           \* truncation off and a digest with more bits than N: the property does not fix e, but a signature was made, so
+           \* recovery with the same settings must return the signer's key, at most two keys, each of which verifies
+           \* (a key that the library's own verification refuses is recorded by the harness as <<-2, -2>>)
+           (IF ~ev.ok THEN {"C14-exception"}
+            ELSE LET got == {<<ev.keys[j][1], ev.keys[j][2]>> : j \in 1..Len(ev.keys)}
+                 IN  (IF PubKey(ev.d) \in got THEN {} ELSE {"C14-signer-key-missing"})
+                     \cup (IF ev.n <= 2 THEN {} ELSE {"C14-more-than-two-keys"})
+                     \cup (IF <<-2, -2>> \in got THEN {"C14-returned-key-does-not-verify"} ELSE {}))
+      ELSE IF S.kind # "sig" THEN {}
       ELSE IF ~ev.ok THEN {"C14-exception"}
       ELSE LET got == {<<ev.keys[j][1], ev.keys[j][2]>> : j \in 1..Len(ev.keys)}
                want == Recover(S.r, S.s, E.e) \ {Inf}
